@@ -13,6 +13,9 @@ static wide submod(wide a, wide b, wide n) { return a >= b ? a - b : a + n - b; 
 static wide addmod(wide a, wide b, wide n) { wide c = a + b; return c >= n ? c - n : c; }
 #endif
 
+#ifndef VERIF_NATIVE
+static wide form_extract(wide sg, wide s, int par, wide n) { wide d = addmod(submod(0, sg, n), s, n); return par ? d : submod(0, d, n); }
+#endif
 /* adapt, then extract from the result: returns the adaptor secret */
 void h_adapt(void) {
     secp256k1_context ctx;
@@ -77,8 +80,10 @@ void h_extract(void) {
         __CPROVER_assert(g_illegal == 0, "C12 extract: no callback for non-NULL arguments");
         __CPROVER_assert(ret == (s < n && sg < n), "C12 extract: succeeds exactly when both s values are < n");
         if (ret == 1) {
-            want = par ? submod(s, sg, n) : submod(sg, s, n);
-            __CPROVER_assert(be256(etout) == want, "C12 extract: t = sig.s - pre.s (parity 0) or pre.s - sig.s (parity 1) mod n");
+            /* (pre.s - sig.s) written as (-sig.s) + pre.s, negated again for parity 0; C12.extract_form_lemma shows this is
+             * sig.s - pre.s (parity 0) / pre.s - sig.s (parity 1) mod n for all inputs */
+            want = form_extract(sg, s, par, n);
+            __CPROVER_assert(be256(etout) == want, "C12 extract: t = sig.s - pre.s (parity 0) or pre.s - sig.s (parity 1) mod n [sum form]");
             if (par == 0 && sg < s) REACH("extract parity 0 with borrow");
             if (par == 1) REACH("extract parity 1");
         }
@@ -106,6 +111,11 @@ void h_inverse_lemma_ea(void) {
     LEMMA_PROLOGUE;
     __CPROVER_assert(spec_extract(spec_adapt(s, t, lpar, n), s, lpar, n) == t, "C12 adapt/extract lemma: extract(adapt(s,t,par), s, par) == t");
     if (!lpar && s + t >= n) REACH("inverse lemma extract(adapt) parity 0 wrap");
+}
+void h_extract_form_lemma(void) {
+    LEMMA_PROLOGUE;
+    __CPROVER_assert(form_extract(t, s, lpar, n) == spec_extract(t, s, lpar, n), "C12 extract form lemma: (-sig.s + pre.s) and its negation equal pre.s - sig.s / sig.s - pre.s mod n");
+    if (!lpar && t < s) REACH("extract form lemma parity 0 borrow");
 }
 void h_inverse_lemma_ae(void) {
     LEMMA_PROLOGUE;
